@@ -10,6 +10,7 @@ import (
 
 	"free5gclib/aper"
 	"free5gclib/nas/nasConvert"
+	"free5gclib/nas/nasType"
 	"free5gclib/ngap/ngapConvert"
 	"free5gclib/ngap/ngapType"
 	"free5gclib/openapi/models"
@@ -84,6 +85,30 @@ func main() {
 			}
 			emit(ev.M{"ev": "PlmnRow", "mcc": ev.Ints([]byte(mccS)), "mncs": ms, "msins": msins, "sucis": sucis, "lens": lens, "plmnNas": plmnNas, "panics": panics})
 		}
+		// rows for one home network each: the identities of several subscribers are encoded one after the other and read only afterwards
+		// (the emulator keeps the identity of every UE it registered: a later call must not change an earlier result)
+		for k := 0; k < 8 && *which != "convert"; k++ {
+			mccS, mnc := digits(r, 3), digits(r, 2+k%2)
+			var ms, sucis, lens, plmnNas, msins [][]int
+			var panics []bool
+			var kept []*nasType.MobileIdentity5GS
+			for j := 0; j < 6; j++ {
+				msin := digits(r, []int{10, 10, 9, 5, 10, 1}[(j+k)%6])
+				var sp *nasType.MobileIdentity5GS
+				p := ev.Catch(func() { sp = stgutg.EncodeSuci([]byte(mccS+mnc+msin), len(mnc)) })
+				kept = append(kept, sp)
+				ms, msins, panics = append(ms, ev.Ints([]byte(mnc))), append(msins, ev.Ints([]byte(msin))), append(panics, p != "" || sp == nil)
+				plmnNas = append(plmnNas, ev.Ints(nasConvert.PlmnIDToNas(models.PlmnId{Mcc: mccS, Mnc: mnc})))
+			}
+			for _, sp := range kept {
+				if sp == nil {
+					sucis, lens = append(sucis, []int{}), append(lens, []int{0})
+					continue
+				}
+				sucis, lens = append(sucis, ev.Ints(sp.Buffer)), append(lens, []int{int(sp.Len)})
+			}
+			emit(ev.M{"ev": "PlmnRow", "mcc": ev.Ints([]byte(mccS)), "mncs": ms, "msins": msins, "sucis": sucis, "lens": lens, "plmnNas": plmnNas, "panics": panics})
+		}
 		// the PLMN on the wire: NG Setup request and user location information built from the SUCI octets as ManageNGSetup does
 		n := 40
 		if thorough {
@@ -121,6 +146,7 @@ func main() {
 			for _, sd := range []string{"", "000000", "ffffff", "010203", hex.EncodeToString(ev.Bytes(r, 3)), "ABCDEF", "7fffff", "800000", "80" + hex.EncodeToString(ev.Bytes(r, 2))} {
 				var o []byte
 				p := ev.Catch(func() { o = nasConvert.SnssaiToNas(models.Snssai{Sst: int32(sst), Sd: sd}) })
+				ev.Hold("S-NSSAI octets returned by SnssaiToNas", o)
 				sdb, _ := hex.DecodeString(sd)
 				emit(ev.M{"ev": "Snssai", "sst": sst, "sd": ev.Ints(sdb), "out": ev.Ints(o), "panic": p != ""})
 			}
@@ -229,6 +255,7 @@ func main() {
 			}
 			var b []byte
 			p := ev.Catch(func() { b = pco.Marshal() })
+			ev.Hold("octets returned by ProtocolConfigurationOptions.Marshal", b)
 			back := nasConvert.NewProtocolConfigurationOptions()
 			var err error
 			p2 := ev.Catch(func() { err = back.UnMarshal(b) })
